@@ -117,10 +117,26 @@ def run(ctx):
         w["name"] = base + "-strained"
         strained.append(w)
     wl += strained
+    # non-primitive descriptions with several internal translations that the point operations permute
+    # (conventional fcc / rocksalt cells, 2x2(x1), 3x1, sqrt5 x sqrt5): kept as given with noreduce
+    nonprim = [("fcc", [[-1, 1, 1], [1, -1, 1], [1, 1, -1]]), ("rocksalt", [[-1, 1, 1], [1, -1, 1], [1, 1, -1]]),
+               ("sc", [[2, 0, 0], [0, 2, 0], [0, 0, 1]]), ("square", [[3, 0], [0, 1]]), ("hex2d", [[2, 0], [0, 2]]),
+               ("square", [[1, 2], [-2, 1]])]
+    if not quick:
+        nonprim += [("bcc", [[2, 0, 0], [0, 2, 0], [0, 0, 2]]), ("hcp", [[2, 0, 0], [0, 2, 0], [0, 0, 1]]),
+                    ("honeycomb", [[2, 1], [-1, 1]]), ("b2", [[1, 1, 0], [-1, 1, 0], [0, 0, 2]]),
+                    ("kagome", [[2, 0], [0, 2]]), ("tetra", [[1, 1, 0], [-1, 1, 0], [0, 0, 2]])]
+    for base, S in nonprim:
+        w = worlds.supercell_world(dict(worlds.CATALOGUE[base], name=base), S)
+        w["name"] = "%s-cell%s" % (base, "".join(str(x) for row in S for x in row).replace("-", "m"))
+        w["force_noreduce"] = True
+        wl.append(w)
     cases, meta = [], []
     for w in wl:
         opts = [{}]
-        if len(meta) % 3 == 0 or "spin" in w or not quick:
+        if w.get("force_noreduce"):
+            opts = [{"noreduce": True}, {}]
+        elif len(meta) % 3 == 0 or "spin" in w or not quick:
             opts += [{"noreduce": True}, {"NOSYM": True}, {"jitter": 1e-10}]
         else:
             opts += [rng.choice([{"noreduce": True}, {"NOSYM": True}, {"jitter": 1e-10}])]
